@@ -52,6 +52,10 @@ def gen(tier, rng):
 def run(tier, rng, C):
     cases = gen(tier, rng)
     v, stats = C.differential("C19", cases, nontrivial=lambda l, o: o.startswith("ok"))
+    bad, nbig = C.invariance("C19", c05.big_pairs(tier, rng, ["devauth"]) if "c05" in globals() else big_pairs(tier, rng, ["devauth"]), "a valid document with an unknown member of more than 1 MiB is accepted like the same document without it")
+    v += bad
+    stats["large_document_pairs"] = nbig
+    stats["evaluations"] = stats.get("evaluations", 0) + nbig
     stats["rule"] = ("device-authorization value-model documents (hostile Unicode codes, verification_uri or legacy verification_url, valid and invalid URLs, both names at once, interval absent/null/0/1/5/2^63/u64::MAX/"
                      "negative/fractional/string/bool, expires_in over and beyond u64, optional members absent/null/present, extension members, unknown members, any order/whitespace/escaping), "
                      "single-member deletions and type corruptions, malformed text; directly and through a 200 reply; plus the poll loop started from responses with each interval class "
